@@ -14,7 +14,7 @@ from ..core import (digest, state_digest, rel_err, Violation, h64, np_stream)
 from ..data import make_data
 from ..estimators import cls_of, tuple_size, SPEC
 from ..histgen import gen_history, history_shrink_moves
-from ..machine import Machine, same_outputs
+from ..machine import Machine, same_outputs, layout_signature
 
 ID = "C17"
 TIERS = {"quick": dict(runs=700, budget=42, det=12),
@@ -257,6 +257,13 @@ class Oracle(object):
         a = _first_diff(live["state_before"], live["state_after"])
         raise Violation("restart_transparent", "cls=%s,attr=%s" % (h.name, a),
                         "fitted state differs after pickle round trip (%s)" % ev.get("how"))
+      if list(live["before_out"]) != list(live["after_out"]) and live.get("old_est") is not None and \
+          layout_signature(live["old_est"]) != layout_signature(h.est):
+        la, lb = layout_signature(live["old_est"]), layout_signature(h.est)
+        k_ = [x for x in sorted(la) if la.get(x) != lb.get(x)][0]
+        raise Violation("restart_transparent", "cls=%s,outputs,layout_of=%s" % (h.name, k_),
+                        "query outputs are not bit-identical after a pickle round trip: the fitted array %s is "
+                        "stored in a non-contiguous layout %s and comes back as %s" % (k_, la.get(k_), lb.get(k_)))
       if not same_outputs(live["before_out"], live["after_out"], m.cov):
         raise Violation("restart_transparent", "cls=%s,outputs" % h.name,
                         "query outputs differ after pickle round trip")
@@ -382,7 +389,7 @@ class Oracle(object):
         if op["op"] == "set_threshold":
           ref.set_threshold(live["value"])
         else:
-          D, pairs, y, via = m.calib_data(h, op)
+          D, pairs, y, via = m.calib_data(h, live.get("op_eff", op))
           if via == "indices":
             pairs = D.S[pairs]
           ref.calibrate_threshold(pairs, y, **live["cp"])
@@ -510,7 +517,7 @@ def gen_plan(seed, tier):
   # unknown=True: refits of supervised learners alternate between the full
   # and the partially unknown label vector on the same points
   return gen_history(seed, tier, fresh_p=0.004 if tier == "thorough" else 0.003,
-                     weights=dict(fault=3, interrupt=6, mutate_store=4), unknown=True, wide_p=0.03, crash_sweep_p=0.08, buffer_p=0.35, view_p=0.3, int_dtype_p=0.08, one_class_p=0.06)
+                     weights=dict(fault=3, interrupt=6, mutate_store=4), unknown=True, wide_p=0.05, crash_sweep_p=0.08, buffer_p=0.35, view_p=0.3, int_dtype_p=0.08, one_class_p=0.06)
 
 
 def run_plan(plan):
